@@ -48,6 +48,10 @@ def setup():
   def g(t=None):
     return t
 
+  @gin.configurable(module='c06')
+  def cased(x=None, X=None, t=None, T=None, Ab=None, aB=None):  # pylint: disable=invalid-name
+    return (x, X, t, T)
+
   @gin.configurable('dup', module='pkg.mod')
   def dup1(x=None):
     return x
@@ -159,7 +163,9 @@ VALUES = {
 T0 = ('', 'c06.f', 'x')
 TARGETS = [T0, ('a', 'c06.f', 'x'), ('a/b', 'c06.f', 'y'), ('', 'pkg.mod.dup', 'x'), ('', 'other.mod.dup', 'x'),
            ('', 'pkg.Fn', 'x'), ('', 'pkg.fn', 'x'), ('s', 'pkg.Fn', 'x'), ('', 'c06.K.meth', 'v'), ('', 'c06.g', 't'),
-           ('mac', 'gin.macro', 'value'), ('a/b', 'gin.macro', 'value'), ('', 'c06.K', 'w')]
+           ('mac', 'gin.macro', 'value'), ('a/b', 'gin.macro', 'value'), ('', 'c06.K', 'w'),
+           ('', 'c06.cased', 'x'), ('', 'c06.cased', 'X'), ('', 'c06.cased', 'T'), ('', 'c06.cased', 't'),
+           ('a', 'c06.cased', 'aB'), ('a', 'c06.cased', 'Ab')]
 OTHER_KINDS = ['int', 'str_long_spaces', 'obj', 'nested_wide', 'intenum']
 POOL = [(T0, k) for k in VALUES] + [(t, k) for t in TARGETS[1:] for k in OTHER_KINDS]
 WIDTHS = lambda ci: [ci + 1, ci + 2, 10, 20, 40, 80, 200]  # noqa: E731
@@ -293,7 +299,7 @@ def roundtrip(bindings, mll, ci, how, res, desc):
     elif cur and re.match(r'^[A-Za-z_][\w/.]* = ', line) and not line.startswith(' '):
       params[cur].append(line.split(' = ')[0].rsplit('.', 1)[1])
   for n, ps in params.items():
-    if ps != sorted(ps):
+    if ps != sorted(ps):   # plain (case-sensitive) order: the only order that is a function of the set alone
       res.violation('params_not_sorted', '%r: parameters of %s not sorted: %r' % (desc, n, ps), desc)
       return None
 
